@@ -57,7 +57,9 @@ def scan_transfer(ctx, body, paths, guards):
     cur = next(iter(cursor))
     header = next((h for h, blks in body.loops.items() if ibb in blks), None)
     backs = [p for p in paths if p.end[0] == "back" and p.end[1] == header]
-    ctx.floor(R, SFN, "scan-loop back-edge paths", len(backs), 6)
+    # four kinds of iteration at least (newline, leading blank, first non-blank, later byte: the `rows` check below names them); how many
+    # paths the recording guard adds on top depends on how it is spelled
+    ctx.floor(R, SFN, "scan-loop back-edge paths", len(backs), 4)
     # the byte under the cursor: the .1 sibling of the enumerate item whose .0 is the index
     item = IDX[1] if isinstance(IDX, tuple) and IDX[0] == "field" and IDX[2] == 0 else None
     ctx.check(item is not None and bool(find_calls(item, "Enumerate<I> as std::iter::Iterator>::next")) and
